@@ -479,6 +479,12 @@ func Idx(off, i *Term) *Term {
 	return App("idx", SInt, off, i)
 }
 
+// CatStr is string concatenation: a string whose array is the uninterpreted
+// function catarr of both operands (so equal operands give the same term).
+func CatStr(a, b *Term) *Term {
+	return MkStr(App("catarr", SInt, a, b), IntLit(0), Add(StrLen(a), StrLen(b)))
+}
+
 var NilSlice = MkSlice(IntLit(0), IntLit(0), IntLit(0), IntLit(0))
 var EmptyStr = MkStr(IntLit(0), IntLit(0), IntLit(0))
 var NilIface = MkIface(IntLit(0), IntLit(0))
